@@ -125,4 +125,204 @@ mutual
           pure (insertItem kb v' t')
 end
 
+/-- A Python dict given by its item list (insertion order). -/
+def PyDict.ofItems : List (PyKey × PyVal) → PyDict
+  | [] => .nil
+  | (k, v) :: t => .cons k v (PyDict.ofItems t)
+
+/-! ### Decoder: `bdecode` (redun/bcoding.py:73-176)
+
+`bdecode` returns `None` for the end marker `e`; `_decode_list` stops at the first `None` item,
+`_decode_dict` stops at the first `None` *key* but stores a `None` *value* (`d1:ae` decodes to
+`{'a': None}`), and the top level returns `None` for `e`.  So the decoded values need a `none`.
+Strings come back as bytes: the str-vs-bytes guess of `_decode_buffer` (valid UTF-8 ⇒ `str`) is not
+modelled (the harness compares up to it).  Dicts come back as the item sequence in stream order,
+duplicates included; the Python dict built from it is `canonD` (last binding wins; compared sorted
+by key bytes). -/
+mutual
+  inductive DVal where
+    | none
+    | int (z : Int)
+    | bytes (b : List UInt8)
+    | list (l : DList)
+    | dict (d : DDict)
+  inductive DList where
+    | nil
+    | cons (v : DVal) (t : DList)
+  inductive DDict where
+    | nil
+    | cons (k : List UInt8) (v : DVal) (t : DDict)
+end
+
+mutual
+  /-- the decoded form of an encodable structure -/
+  def ofB : BVal → DVal
+    | .int z => .int z
+    | .bytes b => .bytes b
+    | .list l => .list (ofBList l)
+    | .dict d => .dict (ofBDict d)
+  def ofBList : BList → DList
+    | .nil => .nil
+    | .cons v t => .cons (ofB v) (ofBList t)
+  def ofBDict : BDict → DDict
+    | .nil => .nil
+    | .cons k v t => .cons k (ofB v) (ofBDict t)
+end
+
+/-- Exceptions of `bdecode`: `TypeError` (unknown type byte / missing `e`), `ValueError` (end of data
+inside an int or string, `int()` rejects the digits, string shorter than its length prefix),
+`AssertionError` (dict key that is not a string), `OverflowError` (`f.read(n)` with `n ≥ 2^63`);
+`fuel` is the model's own out-of-fuel answer, unreachable from `decode` (`decode_ne_fuel`). -/
+inductive DErr where
+  | type | value | assertion | overflow | fuel
+  deriving DecidableEq, Repr
+
+def isSpaceB (c : UInt8) : Bool := c == 32 || (9 ≤ c && c ≤ 13)   -- Py_ISSPACE
+def isDigitB (c : UInt8) : Bool := 48 ≤ c && c ≤ 57
+def digitVal (c : UInt8) : Nat := c.toNat - 48
+
+/-- `_readuntil(f, end)`: the bytes before the first `e`, and what follows it; `none` = data ended
+(`ValueError`). -/
+def readUntil (e : UInt8) : List UInt8 → Option (List UInt8 × List UInt8)
+  | [] => none
+  | c :: t =>
+    if c = e then some ([], t)
+    else match readUntil e t with
+      | some (a, r) => some (c :: a, r)
+      | none => none
+
+/-- Digits of a base-10 `int()` literal after the first digit: single underscores between digits are
+allowed (`1_0`), `1__0`, `1_` and `1_x` are not.  Returns the value and the unread rest. -/
+def scanDigits : Nat → List UInt8 → Option (Nat × List UInt8)
+  | acc, [] => some (acc, [])
+  | acc, c :: t =>
+    if isDigitB c then scanDigits (acc * 10 + digitVal c) t
+    else if c = 95 then
+      match t with
+      | d :: t' => if isDigitB d then scanDigits (acc * 10 + digitVal d) t' else none
+      | [] => none
+    else some (acc, c :: t)
+
+/-- unsigned part of the literal: a digit first, then `scanDigits`, then only whitespace -/
+def pyIntNat : List UInt8 → Option Nat
+  | [] => none
+  | c :: t =>
+    if isDigitB c then
+      match scanDigits (digitVal c) t with
+      | some (n, rest) => if rest.all isSpaceB then some n else none
+      | none => none
+    else none
+
+/-- CPython `int(b)` for a bytes-like `b`, base 10: optional ASCII whitespace, optional sign, digits
+with single underscores, optional whitespace.  Leading zeros and `-0` are accepted.  `none` =
+`ValueError`.  Not modelled: the `sys.int_max_str_digits` limit (4300 digits by default). -/
+def pyInt (bs : List UInt8) : Option Int :=
+  match bs.dropWhile isSpaceB with
+  | [] => none
+  | c :: t =>
+    if c = 45 then (pyIntNat t).map fun n => -(Int.ofNat n)
+    else if c = 43 then (pyIntNat t).map Int.ofNat
+    else (pyIntNat (c :: t)).map Int.ofNat
+
+/-- `_decode_buffer`: `int(_readuntil(f, b":"))`, then `f.read(strlen)`. -/
+def decBytes (bs : List UInt8) : Except DErr (DVal × List UInt8) :=
+  match readUntil 58 bs with
+  | none => .error .value
+  | some (ds, rest) =>
+    match pyInt ds with
+    | none => .error .value
+    | some z =>
+      if z < 0 then .error .value            -- unreachable: `ds` starts with a digit
+      else if z.toNat ≥ 2 ^ 63 then .error .overflow
+      else if rest.length < z.toNat then .error .value
+      else .ok (.bytes (rest.take z.toNat), rest.drop z.toNat)
+
+mutual
+  /-- `bdecode` on the unread bytes.  `last` is the last byte of the whole input: at end of data
+  `bdecode` reads nothing, its `seek(-1, SEEK_CUR)` steps back onto the last byte and the `else` branch
+  re-reads it — so `lle` decodes to `[[]]` and `li1e` to `[1]`, while `l` raises `TypeError`. -/
+  def decF (last : Option UInt8) : Nat → List UInt8 → Except DErr (DVal × List UInt8)
+    | 0, _ => .error .fuel
+    | _ + 1, [] => if last = some 101 then .ok (.none, []) else .error .type
+    | fuel + 1, c :: bs =>
+      if c = 105 then
+        match readUntil 101 bs with
+        | none => .error .value
+        | some (ds, rest) =>
+          match pyInt ds with
+          | none => .error .value
+          | some z => .ok (.int z, rest)
+      else if c = 108 then
+        match decListF last fuel bs with
+        | .error e => .error e
+        | .ok (l, rest) => .ok (.list l, rest)
+      else if c = 100 then
+        match decDictF last fuel bs with
+        | .error e => .error e
+        | .ok (d, rest) => .ok (.dict d, rest)
+      else if isDigitB c then decBytes (c :: bs)
+      else if c = 101 then .ok (.none, bs)
+      else .error .type
+  /-- `_decode_list` after the `l` -/
+  def decListF (last : Option UInt8) : Nat → List UInt8 → Except DErr (DList × List UInt8)
+    | 0, _ => .error .fuel
+    | fuel + 1, bs =>
+      match decF last fuel bs with
+      | .error e => .error e
+      | .ok (.none, rest) => .ok (.nil, rest)
+      | .ok (v, rest) =>
+        match decListF last fuel rest with
+        | .error e => .error e
+        | .ok (t, rest') => .ok (.cons v t, rest')
+  /-- `_decode_dict` after the `d`: the key's type is asserted before the value is decoded -/
+  def decDictF (last : Option UInt8) : Nat → List UInt8 → Except DErr (DDict × List UInt8)
+    | 0, _ => .error .fuel
+    | fuel + 1, bs =>
+      match decF last fuel bs with
+      | .error e => .error e
+      | .ok (.none, rest) => .ok (.nil, rest)
+      | .ok (.bytes k, rest) =>
+        match decF last fuel rest with
+        | .error e => .error e
+        | .ok (v, rest') =>
+          match decDictF last fuel rest' with
+          | .error e => .error e
+          | .ok (t, r) => .ok (.cons k v t, r)
+      | .ok (_, _) => .error .assertion
+end
+
+/-- `bdecode(data)` for `data : bytes`: the first value and the unread rest (`f.tell()`).
+`bdecode` accepts many inputs that are not encodings of anything (`i-0e`, `i03e`, `i 1_0 e`, `03:abc`,
+unsorted or duplicate dict keys, `lle`, `d1:ae`, trailing bytes): this mirrors them; property C14 only
+speaks about decoding *encodings* (`dec_enc`). -/
+def decode (data : List UInt8) : Except DErr (DVal × List UInt8) :=
+  decF data.getLast? (2 * data.length + 2) data
+
+/-! The Python dict that `_decode_dict` builds from the item stream: `ret[key] = value` in stream
+order (last binding wins), compared sorted by key bytes. -/
+def dInsert (k : List UInt8) (v : DVal) : DDict → DDict
+  | .nil => .cons k v .nil
+  | .cons k' v' t => if bytesLt k k' then .cons k v (.cons k' v' t) else .cons k' v' (dInsert k v t)
+
+def dHasKey (k : List UInt8) : DDict → Bool
+  | .nil => false
+  | .cons k' _ t => k == k' || dHasKey k t
+
+mutual
+  def canonD : DVal → DVal
+    | .none => .none
+    | .int z => .int z
+    | .bytes b => .bytes b
+    | .list l => .list (canonDList l)
+    | .dict d => .dict (canonDDict d)
+  def canonDList : DList → DList
+    | .nil => .nil
+    | .cons v t => .cons (canonD v) (canonDList t)
+  def canonDDict : DDict → DDict
+    | .nil => .nil
+    | .cons k v t =>
+      let t' := canonDDict t
+      if dHasKey k t' then t' else dInsert k (canonD v) t'
+end
+
 end RedunModel.BStruct
